@@ -137,6 +137,9 @@ def check_cfg(case, ev):
     if any(i in lv for i in comps):
         ev.count("discarded_by_reference_atom")
         return
+    if common.ambiguous_prio(c):
+        ev.count("skipped_ambiguous_prio_sharing")
+        return
     d1, dp1, poly1 = cfg_snapshot(c)
     doc, c2 = roundtrip(c, cc.StingyConfigurator.from_json)
     if type(c2).__name__ != "StingyConfigurator":
